@@ -1,6 +1,6 @@
 (* C06 -- property theorems only.  Proofs live in C06/Proofs*.v and C06/Tables.v. *)
 From Coq Require Import NArith List Bool.
-From DV Require Import Base.Outcome Base.Bytes C06.Gen C06.Model C06.Proofs C06.Proofs2 C06.Tables C06.Proofs3 C06.Proofs4 C06.Blob C06.Proofs5.
+From DV Require Import Base.Outcome Base.Bytes C06.Gen C06.Model C06.Proofs C06.Proofs2 C06.Tables C06.B32 C06.Proofs3 C06.Proofs4 C06.Blob C06.Proofs5 C06.Svc C06.SvcProofs.
 Import ListNotations.
 Local Open Scope N_scope.
 
@@ -205,6 +205,41 @@ Theorem C06_fast_path_agrees_refuted : exists q t,
   scan_octets_text q t = Ok ([127], [32]) /\ slow_octets q t = Err E_symbol.
 Proof. exact fast_path_agrees_refuted. Qed.
 Print Assumptions C06_fast_path_agrees_refuted.
+
+Theorem C06_blob32_roundtrip : forall b, wf_bytes b -> b <> [] ->
+  exists w : text, DV.C18.Model.b32_display b = Ok w /\ plain_word w = true /\
+    DV.C18.Model.b32_convert (@cons text w (@nil text)) = Ok b.
+Proof. exact blob32_roundtrip. Qed.
+Print Assumptions C06_blob32_roundtrip.
+
+Theorem C06_nsec3_empty_next_owner_refuted :
+  c06_rec 0 50 [] 0 1 [VUint 1; VUint 0; VUint 10; VSalt []; VB32 []; VTypes [1]]
+  = Ok ([46; 32; 48; 32; 73; 78; 32; 78; 83; 69; 67; 51; 32; 49; 32; 48; 32; 49; 48; 32; 45; 32; 32; 65; 10], Err 2).
+Proof. exact nsec3_empty_next_owner_refuted. Qed.
+Print Assumptions C06_nsec3_empty_next_owner_refuted.
+
+Theorem C06_svc_unknown_roundtrip : forall k b sp, 9 < k < 65536 -> wf_bytes b ->
+  good_shape (TWord (show_param (PUnknown k b))) = true /\
+  read_param (shape_tok sp (TWord (show_param (PUnknown k b)))) = Ok (PUnknown k b).
+Proof. exact svc_unknown_roundtrip. Qed.
+Print Assumptions C06_svc_unknown_roundtrip.
+
+Theorem C06_svc_dohpath_roundtrip : forall b sp, wf_bytes b -> utf8_ok (S (length b)) b = true ->
+  good_shape (TWord (show_param (PDohpath b))) = true /\
+  read_param (shape_tok sp (TWord (show_param (PDohpath b)))) = Ok (PDohpath b).
+Proof. exact svc_dohpath_roundtrip. Qed.
+Print Assumptions C06_svc_dohpath_roundtrip.
+
+Theorem C06_svc_known_findings_refuted :
+  read_param (mk_tok false true (show_param PNoDefaultAlpn)) = Err E_symbol /\
+  read_param (mk_tok false true (show_param (PAlpn [[97; 44; 98]]))) = Ok (PAlpn [[97]; [98]]) /\
+  show_param (PIp4hint []) = [] /\
+  read_param (mk_tok false true (show_param (PDohpath [247]))) = Err E_symbol.
+Proof.
+  exact (conj svc_nodefaultalpn_refuted (conj (proj1 svc_alpn_escaping_refuted)
+        (conj (proj1 svc_empty_value_refuted) svc_dohpath_not_utf8_refuted))).
+Qed.
+Print Assumptions C06_svc_known_findings_refuted.
 
 Theorem C06_generic_form_roundtrip : forall k owner ttl cl rt data,
   wf_name owner -> ttl <= 4294967295 -> cl < 65536 -> rt < 65536 ->
